@@ -14,12 +14,28 @@ import (
 //                    '1', 'm', 'z' as above
 // In variable mode (Real32/Real64 only) '1' and 'm' are activated variables as well.
 
+// The Equals alphabets add: 't' 1e-17, 'u' -1e-17, 'n' 1e-9, 'q' 0.75, 'I' +Inf, 'J' -Inf,
+// 'N' NaN (never variables).
 func letterVal(c byte) float64 {
 	switch c {
 	case '1':
 		return 1
 	case 'm':
 		return -2
+	case 't':
+		return 1e-17
+	case 'u':
+		return -1e-17
+	case 'n':
+		return 1e-9
+	case 'q':
+		return 0.75
+	case 'I':
+		return math.Inf(1)
+	case 'J':
+		return math.Inf(-1)
+	case 'N':
+		return math.NaN()
 	}
 	return 0
 }
@@ -55,6 +71,9 @@ func (m *model) operand(p string, varMode bool, next *int) []jet {
 	r := make([]jet, len(p))
 	for i := 0; i < len(p); i++ {
 		r[i].v = letterVal(p[i])
+		if m.class == "int" {
+			r[i].v = roundTo("Int", r[i].v)
+		}
 		if isVar(p[i], varMode) {
 			r[i].d = make([]float64, m.n)
 			r[i].d[*next] = 1
@@ -131,6 +150,17 @@ func sameClass(x, y float64) bool {
 	return x == y || (math.IsNaN(x) && math.IsNaN(y))
 }
 
+// elemEquals is the documented element comparison (scalar_*_math.go: Equals): integers
+// compare exactly and ignore epsilon; floating-point elements are equal iff
+// |a-b| < epsilon, or both are NaN, or both are the same infinity.
+func elemEquals(class string, a, b, eps float64) bool {
+	if class == "int" {
+		return a == b
+	}
+	return math.Abs(a-b) < eps || (math.IsNaN(a) && math.IsNaN(b)) ||
+		(math.IsInf(a, 1) && math.IsInf(b, 1)) || (math.IsInf(a, -1) && math.IsInf(b, -1))
+}
+
 // expectation of one case
 type expect struct {
 	res   []jet // expected content of the result container (row major), or the scalar
@@ -156,16 +186,18 @@ func opChar(op string) byte {
 // expected computes the model result of a case for element class `class`.
 func expected(cs *Case, class string) *expect {
 	m := &model{class: class}
-	m.n = countVars(cs.A, cs.Var) + countVars(cs.B, cs.Var) + countVars(cs.R, cs.Var)
+	m.n = cs.nvars()
 	next := 0
 	var A, B, R []jet
-	if cs.Op == "VnewSparse" || cs.Op == "MnewSparse" || cs.Op == "VnewDense" || cs.Op == "MnewDense" {
+	if cs.Op == "VnewSparse" || cs.Op == "MnewSparse" || cs.Op == "VnewDense" || cs.Op == "MnewDense" || cs.Op == "VnewConst" {
 		A = m.operand(cs.A, false, &next)
 		return &expect{res: A}
 	}
-	A = m.operand(cs.A, cs.Var, &next)
-	B = m.operand(cs.B, cs.Var, &next)
-	R = m.operand(cs.R, cs.Var, &next)
+	A = m.operand(cs.A, cs.slotVar(1), &next)
+	if cs.Op != "VequalsE" && cs.Op != "MequalsE" {
+		B = m.operand(cs.B, cs.slotVar(2), &next)
+	}
+	R = m.operand(cs.R, cs.slotVar(0), &next)
 	e := &expect{prior: R}
 	zero := jet{}
 	switch cs.Op {
@@ -225,12 +257,13 @@ func expected(cs *Case, class string) *expect {
 				e.res[i*q+j] = m.bin('*', A[i], B[j])
 			}
 		}
-	case "Vset", "Mset", "VasDense", "VasSparse", "MasDense", "MasSparse":
+	case "Vset", "Mset", "VasDense", "VasSparse", "MasDense", "MasSparse", "VasConst":
 		e.res = A
-	case "Vequals", "Mequals":
+	case "Vequals", "Mequals", "VequalsE", "MequalsE":
 		e.isB, e.b = true, true
+		eps := cs.eps()
 		for i := range A {
-			if A[i].v != R[i].v {
+			if !elemEquals(class, R[i].v, A[i].v, eps) {
 				e.b = false
 			}
 		}
